@@ -104,7 +104,15 @@ def doSet (s : St) (tr : TreeSel) (pth : List Byte) (sp : Byte) (v : AVal) : St 
     | .priv =>
       let sp' := if accept then { s with mp := PathMap.set s.mp key val, np := PathMap.addNodes s.np key } else s
       let want := if accept then "ok" else "refused"
-      let r := nodeAssignE s.p es v
+      -- the private list is driven on the path cursor (`mpt_node_assign` interleaves `mpt_path_next` with the walk);
+      -- `cursor_walk` shows this equals `nodeAssign` on the split elements
+      let r : List CNode × Bool := match v with
+        | .text t =>
+          if !es.all elemFits then (s.p, false)
+          else match nodeAssignP s.p (pathSet sp 0 pth).1 t (pth.length + 2) with
+            | .ok (some l') => (l', true)
+            | _ => (s.p, false)
+        | .noText => (nodeAssignE s.p es v)
       let s' := { sp' with p := r.1 }
       (s', line s' (if r.2 then "ok" else "refused") "node" [(want, specC sp')])
     | .glob =>
@@ -155,6 +163,51 @@ def step (s : St) (w : List String) : St × String :=
       if n < 65535 ∨ n > 70000 ∨ sp = 120 then (s, "bad-op") else
       doSet s tr (pre ++ List.replicate n 120 ++ suf) sp (.text val)
     | _, _, _, _, _, _ => (s, "bad-op")
+  | ["g", "delp", tr, how] =>
+    if how ≠ "empty" ∧ how ≠ "null" then (s, "bad-op") else
+    match parseTree s tr with
+    | some .priv => (s, "bad-op")
+    | some tr =>
+      let b := match tr with | .view b => b | _ => []
+      let arg : Option (List (List Byte)) := if how = "null" then none else some []
+      -- spec: nothing there at all, or NULL on the global object: refused; a view whose base does not exist: nothing
+      -- happens; otherwise the value of the base (NULL) / everything beneath the base (empty) / everything (global) goes
+      let baseThere := b = [] ∨ s.ng.contains b
+      let refuse := s.ng.isEmpty ∨ (b = [] ∧ how = "null")
+      let sp' : St :=
+        if refuse ∨ ¬ baseThere then s
+        else if how = "null" then { s with mg := PathMap.unset s.mg b }
+        else if b = [] then { s with mg := [], ng := [] }
+        else { s with mg := PathMap.removeBelow s.mg b,
+                      ng := s.ng.filter (fun k => !(b.isPrefixOf k && k != b)) }
+      match configRemoveP s.g b arg with
+      | .ok (g', ret) =>
+        let s' := { sp' with g := g' }
+        (s', line s' "ok" (toString ret) [(if refuse then "refused" else "ok", specC sp')])
+      | x => (s, line s "refused" (resName x) [(if refuse then "refused" else "ok", specC sp')])
+    | none => (s, "bad-op")
+  | ["g", "setp", tr, val] =>
+    match parseTree s tr, parseText val with
+    | some .priv, _ => (s, "bad-op")
+    | some tr, some val =>
+      let b := match tr with | .view b => b | _ => []
+      let accept := b ≠ [] ∧ PathMap.keyFits b
+      let sp' := if accept then { s with mg := PathMap.set s.mg b val, ng := PathMap.addNodes s.ng b } else s
+      let r := configAssignE s.g b [] (.text val)
+      let s' := { sp' with g := r.1 }
+      (s', line s' (match r.2 with | .ok _ => "ok" | _ => "refused") (match r.2 with | .ok _ => "0" | x => resName x)
+        [(if accept then "ok" else "refused", specC sp')])
+    | _, _ => (s, "bad-op")
+  | ["g", "getp", tr] =>
+    match parseTree s tr with
+    | some .priv => (s, "bad-op")
+    | some tr =>
+      let b := match tr with | .view b => b | _ => []
+      let specR := match (if b = [] then none else PathMap.get s.mg b) with | some v => "val=" ++ toHex v | none => "absent"
+      match configQuery s.g b [] with
+      | .ok v => (s, line s ("val=" ++ toHex v) "0" [(specR, specC s)])
+      | x => (s, line s "absent" (resName x) [(specR, specC s)])
+    | none => (s, "bad-op")
   | ["g", "has", tr, pth, sp] =>
     match parseTree s tr, parseText pth, parseChar sp with
     | some tr, some pth, some sp =>
@@ -196,7 +249,13 @@ def step (s : St) (w : List String) : St × String :=
       match pathElems sp 0 pth with
       | .ok es =>
         let (res, specRes) := match tr with
-          | .priv => (configQuery s.p [] es, PathMap.get s.mp key)
+          | .priv =>
+            -- through `mpt_node_query` on the cursor
+            ((match nodeGetP s.p (pathSet sp 0 pth).1 (pth.length + 2) with
+              | .ok (some v) => Res.ok v
+              | .ok none => .err .MissingData
+              | .err e => .err e
+              | .null => .null | .oob => .oob | .fault => .fault), PathMap.get s.mp key)
           | .glob => (configQuery s.g [] es, PathMap.get s.mg key)
           | .view b => (configQuery s.g b es, PathMap.get s.mg (b ++ key))
         let specR := match specRes with | some v => "val=" ++ toHex v | none => "absent"
